@@ -265,7 +265,7 @@ Definition valid_spec (s : sspec) : bool :=
   negb (ss_maxn s <? ss_minn s) &&
   forallb valid_policy (ss_policies s).
 
-Definition valid_config (specs : list sspec) : bool :=
+Definition valid_specs (specs : list sspec) : bool :=
   match specs with [] => false | _ => forallb valid_spec specs end.
 
 Definition has_policy (ps : list pspec) (n : Z) : bool := existsb (fun p => ps_name p =? n) ps.
@@ -313,6 +313,18 @@ Fixpoint init_chain (ps : list pspec) : option (list rpol) :=
               | Some rp => match init_chain r with None => None | Some ch => Some (rp :: ch) end
               end
   end.
+
+(* ParseShardingConfig as a whole (after fix 4209844): the per-entry checks;
+   validatePolicyChain — every policy of the chain applyPolicyDefaults
+   synthesizes can be built and initialised; scheduler names pairwise distinct *)
+Definition chain_inits (s : sspec) : bool :=
+  match init_chain (map to_ref (apply_defaults s)) with Some _ => true | None => false end.
+
+Fixpoint zdistinct (l : list Z) : bool :=
+  match l with [] => true | x :: r => negb (existsb (Z.eqb x) r) && zdistinct r end.
+
+Definition valid_config (specs : list sspec) : bool :=
+  valid_specs specs && forallb chain_inits specs && zdistinct (map ss_name specs).
 
 (* initializePolicies, sharding_manager.go 75-106: the FIRST error returns,
    leaving this and every later scheduler without a policyCache entry *)
@@ -400,4 +412,54 @@ Definition history (specs : list sspec) (steps : list (list node * metrics)) :=
   match new_manager specs with
   | None => None
   | Some mg => Some (run_history mg steps)
+  end.
+
+(* ------------------------------------------------------------------ *)
+(* 5. Publication: what the NodeShard objects show                      *)
+(* ------------------------------------------------------------------ *)
+
+(* assignmentNeedsUpdate, sharding_controller.go 628-655: a different node
+   count always updates; with the same count the calculated nodes that are NEW
+   (not in the published set) are counted and the update happens once
+   max(1, len(calculated)/10) of them are found *)
+Definition new_count (published calculated : list positive) : nat :=
+  length (filter (fun x => negb (memb x published)) calculated).
+
+Definition needs_update (published calculated : list positive) : bool :=
+  if negb (length published =? length calculated)%nat then true
+  else (Nat.max 1 (length calculated / 10) <=? new_count published calculated)%nat.
+
+Fixpoint plookup (pub : list (Z * list positive)) (s : Z) : option (list positive) :=
+  match pub with
+  | [] => None
+  | (k, v) :: t => if k =? s then Some v else plookup t s
+  end.
+
+(* applyAssignment, 553-590, for one scheduler: no NodeShard yet => createShard
+   with the calculated nodes; otherwise the object is rewritten only when
+   assignmentNeedsUpdate says so *)
+Definition publish_entry (pub : list (Z * list positive)) (e : Z * list positive) : Z * list positive :=
+  (fst e, match plookup pub (fst e) with
+          | None => snd e
+          | Some cur => if needs_update cur (snd e) then snd e else cur
+          end).
+
+(* syncShards + the workers: every scheduler of the calculated map is applied;
+   the published state has the names of the calculation, in its (ascending) order *)
+Definition publish (pub calc : list (Z * list positive)) : list (Z * list positive) :=
+  map (publish_entry pub) calc.
+
+(* one controller, a sequence of syncs: list the nodes (sorted), calculate, publish *)
+Fixpoint pub_history (mg : manager) (pub : list (Z * list positive)) (steps : list (list node * metrics))
+  : list (list (Z * list positive)) :=
+  match steps with
+  | [] => []
+  | (ns, m) :: r => let pub' := publish pub (snd (reconcile mg (list_nodes ns) m)) in
+                    pub' :: pub_history mg pub' r
+  end.
+
+Definition publish_history (specs : list sspec) (steps : list (list node * metrics)) :=
+  match new_manager specs with
+  | None => None
+  | Some mg => Some (pub_history mg [] steps)
   end.
